@@ -396,3 +396,28 @@ Definition used_by (name : str) (ls : list str) : option (list str) :=
     | Some gs' => Some (flatten gs')
     | None => None                            (* paras[0]: index out of range *)
     end.
+
+(* ---------- round 5: the file on disk.  Load splits the bytes at "\n"; Line.Text is the
+   part before the "\n" -- a "\r" in front of it stays in the text; the last line may be
+   unterminated (then it is not empty).  SaveAutofixChanges writes every line with the
+   terminator it had and every INSERTED line with "\n" (autofix.go InsertAbove/InsertBelow),
+   whatever the neighbours end in: in terms of texts, an inserted line never ends in "\r". ---------- *)
+Fixpoint split_nl (cur : str) (bs : str) : list str * bool :=      (* texts, last line terminated *)
+  match bs with
+  | [] => match cur with [] => ([], true) | _ :: _ => ([rev cur], false) end
+  | c :: r => if c =? 10 then let (ls, t) := split_nl [] r in (rev cur :: ls, t)
+              else split_nl (c :: cur) r
+  end.
+Definition load_file (bs : str) : list str * bool := split_nl [] bs.
+(* every line followed by "\n", except the last one if t = false *)
+Fixpoint save_file (ls : list str) (t : bool) : str :=
+  match ls with
+  | [] => []
+  | l :: r => match r with
+              | [] => if t then l ++ [10] else l
+              | _ :: _ => l ++ 10 :: save_file r t
+              end
+  end.
+Definition nl_free (l : str) : bool := forallb (fun c => negb (c =? 10)) l.
+(* what can be written and read back: an unterminated last line is not empty *)
+Definition saveable (ls : list str) (t : bool) : Prop := t = true \/ last ls [] <> [].
